@@ -1,5 +1,6 @@
 """Property -> rules registry."""
-from .rules import kernel, incr, rot, sched, meas, integrator, kal, purity, diff, sensor, layout, geo, errmodel, frames, simrules, dtype, idxdom, forms, interp, smmodel
+import os
+from .rules import kernel, incr, rot, sched, meas, integrator, kal, purity, diff, sensor, layout, geo, errmodel, frames, simrules, dtype, idxdom, forms, interp, smmodel, names
 
 PROPS = {
     'C01': dict(
@@ -325,6 +326,19 @@ PROPS = {
 }
 
 
+def _anchor_files(prop):
+    import json
+    here = os.path.dirname(os.path.dirname(os.path.abspath(__file__)))
+    try:
+        for line in open(os.path.join(here, 'properties.jsonl')):
+            p_ = json.loads(line)
+            if p_['id'] == prop:
+                return [x for x in p_['anchors']['files'] if x.endswith('.py')]
+    except OSError:
+        pass
+    return []
+
+
 def run(ctx):
     spec = PROPS[ctx.prop]
     ctx.decided = spec['decided']
@@ -335,7 +349,11 @@ def run(ctx):
     ]
     from .model import AnalysisError
     deferred = None
-    for r in spec['rules']:
+    # NAME-BOUND on the modules the property is anchored in (every property: a NameError on a
+    # path of the anchored code breaks whatever is stated about that path)
+    anchored = tuple(sorted({os.path.basename(x)[:-3] for x in _anchor_files(ctx.prop)}))
+    rules = list(spec['rules']) + [lambda c: names.name_bound(c, anchored)]
+    for r in rules:
         try:
             r(ctx)
         except AnalysisError as e:
